@@ -627,6 +627,25 @@ func runC17(r *Run) {
 				}
 			}
 		}
+		// add: the rebuilt list starts from the entries the document already has
+		if s.kind == "add" {
+			getter := map[string]string{"publicKey": "PublicKeys", "service": "Services", "alsoKnownAs": "AlsoKnownAs"}[s.section]
+			okKeep := false
+			for _, b := range f.Blocks {
+				for _, ins := range b.Instrs {
+					c, isC := ins.(*ssa.Call)
+					if !isC || !isBuiltin(c, "append") || enclosingLoopHead(f, b) != nil || len(c.Common().Args) != 2 {
+						continue
+					}
+					t := sf.TB.Of(c.Common().Args[1]).String()
+					if strings.Contains(t, "."+getter+"(") && strings.Contains(t, "$"+f.Params[0].Name()) {
+						okKeep = true
+					}
+				}
+			}
+			r.R.Check(okKeep, P+".set.keep."+s.fn, "E5: before new entries are merged, the rebuilt list receives the document's existing "+s.section+" entries (append(list, doc."+getter+"()...))", core.FuncName(f), r.where(f),
+				"without it an add patch replaces the whole section by the added entries", "existing entries retained", "no append of the document's existing entries into the rebuilt list")
+		}
 		// section written back
 		okStore := false
 		for _, b := range f.Blocks {
